@@ -72,6 +72,12 @@ impl CaoLangAllocator {
         if allocated > self.limit.load(Ordering::Relaxed) {
             return Err(AllocError::OutOfMemory);
         }
+        #[cfg(feature = "verif-hooks")]
+        if crate::verif_hooks::gc_requested() && !self.runtime.is_null() {
+            unsafe {
+                (*self.runtime).gc();
+            }
+        }
         if allocated > self.next_gc.load(Ordering::Relaxed) {
             self.next_gc.store(allocated * 2, Ordering::Relaxed);
             unsafe {
